@@ -434,8 +434,21 @@ def _t_stack(c):
 def _t_array1(c):
     s = c.shape(0, 3)
     nm = c.int(0, 4)
-    fn = (lambda ns, x: ns.array(x, ndmin=nm)) if nm else (lambda ns, x: ns.array(x))
-    return Call("s:array1", fn, [s], desc=["array", list(s), nm], feats={"fn": "array", "ndmin": nm, "ndim": len(s)})
+    kw = {"ndmin": nm} if nm else {}
+    dt = c.choice([None, None, "complex", "float64"])  # a complex result type requested for (possibly) real input
+    if dt:
+        kw["dtype"] = complex if dt == "complex" else onp.float64
+    wrap = c.int(0, 3)  # 0: the array itself, 1: a list holding it, 2: a tuple of it and a constant row, 3: nested lists of its rows
+    if wrap == 1:
+        fn = lambda ns, x: ns.array([x], **kw)
+    elif wrap == 2:
+        fn = lambda ns, x: ns.array((x, 0.5 * onp.ones(s)), **kw)
+    elif wrap == 3 and len(s) >= 1:
+        fn = lambda ns, x: ns.array([[r, r] for r in x], **kw)
+    else:
+        fn = lambda ns, x: ns.array(x, **kw)
+    return Call("s:array1", fn, [s], desc=["array", list(s), nm, dt, wrap], feats={"fn": "array", "ndmin": nm, "ndim": len(s), "dtype": dt, "wrap": wrap},
+                cplx=dt != "float64")
 
 
 @template("s:r_c_", "shape")
